@@ -9,9 +9,10 @@ CONSTANTS
  EditSides = {"alpha", "beta"}
  EventSides = {"alpha"}
  MaxEdits = 1
- MaxEvents = 1
+ MaxEvents = 0
  MaxFaults = 0
  Export = FALSE
+ RunToBlock = FALSE
  Mut = "none"
 SPECIFICATION Spec
 INVARIANTS InvPausedQuiet InvFlushFresh InvPauseSurvives InvTerminatedGone InvReset InvC11 InvNeverPropagated InvLoopShape
